@@ -138,7 +138,9 @@ func (p *SingleFlightProvider) ValidateGroupMembership(email string, allowedGrou
 
 // Revoke wraps the provider's Revoke function in a single flight call.
 func (p *SingleFlightProvider) Revoke(s *sessions.SessionState) error {
-	_, err := p.do("Revoke", s.AccessToken, func() (interface{}, error) {
+	// providers revoke different tokens of the session (Google the access token, Okta the refresh
+	// token), so both identify the call: sessions that share only one of them are not merged
+	_, err := p.do("Revoke", fmt.Sprintf("%q:%q", s.AccessToken, s.RefreshToken), func() (interface{}, error) {
 		err := p.provider.Revoke(s)
 		return nil, err
 	})
